@@ -1,12 +1,12 @@
 (* tsbatch model driver (C04 batch model, C17 deadline model).  Requests (one line each):
 
-   batch <retain> <keybypath> <hascancel> <isroot>
+   batch <retain> <keybypath> <hascancel> <isroot> <namesseeenv>
          H <n> (<hexname> <hexvalue>)*            host environment
          T <n> (<hexpathvalue> <hexprog> <0|1>)*  execpath.Look over host directories
          L <hexhelper>
          N <n> (script)*
          SCHED <i>*                               explicit prefix of the schedule; completed round-robin
-     script := S <setuperr> A <n> (<path> <hexdata>)* V <n> (<hexname> <value>)* D <n> (<id> <bad>)* B <n> (action)*
+     script := S <setuperr> A <n> (<path> <hexdata>)* Q <n> <path>* V <n> (<hexname> <value>)* D <n> (<id> <bad>)* B <n> (action)*
      value  := L:<hex> | W:<path>
      path   := "." | seg(/seg)*
      action := W <path> <hex> | M <path> <ro> | X <path> | C <path> | E <hexk> <hexv> | P <path> <keep>
@@ -62,13 +62,15 @@ let parse_script (self : int) : script =
   expect "S"; let se = bool_of (next ()) in
   expect "A"; let n = next_int () in
   let files = times n (fun () -> let p = path_of_string (next ()) in (p, bytes_of_hex (next ()))) in
+  expect "Q"; let n = next_int () in
+  let wn = times n (fun () -> path_of_string (next ())) in
   expect "V"; let n = next_int () in
   let adds = times n (fun () -> let k = bytes_of_hex (next ()) in (k, parse_value self (next ()))) in
   expect "D"; let n = next_int () in
   let defs = times n (fun () -> let i = next_int () in (nat_of_int i, bool_of (next ()))) in
   expect "B"; let n = next_int () in
   let body = times n parse_action in
-  { archive = files; setup_adds = adds; setup_defers = defs; setup_err = se; body = body }
+  { archive = files; work_named = wn; setup_adds = adds; setup_defers = defs; setup_err = se; body = body }
 
 (* ---- canonical rendering (the Go runner renders its observations the same way) *)
 let render_value (v : value) : string =
@@ -107,7 +109,9 @@ let exit_string = function
   | Done VSkip -> "skip" | Done VPanic -> "panic" | _ -> "unfinished"
 
 let render_script (ss : sstate) : string =
-  let setup = String.concat "" (List.filter_map (function EvSetup (e, t) -> Some (render_env e ^ "@" ^ render_tree t) | _ -> None) ss.obs) in
+  let setup = String.concat "" (List.filter_map (function
+    | EvSetup (e, t, o) -> Some (render_env e ^ "@" ^ render_tree t ^ (if o = [] then "" else "@OUTSIDE:" ^ String.concat "," (List.map string_of_path o)))
+    | _ -> None) ss.obs) in
   let probes = List.filter_map (function
     | EvProbe (c, e, t) -> Some (string_of_path c ^ "@" ^ render_env e ^ "@" ^ render_tree t) | _ -> None) ss.obs in
   let conds = List.filter_map (function EvCond (p, a) -> Some (hex_of_bytes p ^ "=" ^ b01 a) | _ -> None) ss.obs in
@@ -120,6 +124,7 @@ let render_script (ss : sstate) : string =
 let do_batch () : string =
   let retain = bool_of (next ()) in let kbp = bool_of (next ()) in
   let hc = bool_of (next ()) in let root = bool_of (next ()) in
+  let nse = bool_of (next ()) in
   expect "H"; let n = next_int () in
   let host = times n (fun () -> let k = bytes_of_hex (next ()) in (k, bytes_of_hex (next ()))) in
   expect "T"; let n = next_int () in
@@ -131,7 +136,7 @@ let do_batch () : string =
   expect "SCHED";
   let pre = List.map (fun t -> nat_of_int (int_of_string t)) !toks in
   toks := [];
-  let cfg = { retain = retain; key_by_path = kbp; has_cancel = hc; is_root = root; hostenv = host; hosttab = tab; helper = helper } in
+  let cfg = { retain = retain; key_by_path = kbp; names_see_env = nse; has_cancel = hc; is_root = root; hostenv = host; hosttab = tab; helper = helper } in
   let maxb = List.fold_left (fun m p -> Stdlib.max m (int_of_nat (steps_bound p))) 0 progs in
   let sched = pre @ round_robin (nat_of_int n) (nat_of_int maxb) in
   let st = run cfg progs (init progs) sched in
